@@ -79,7 +79,11 @@ fn main() {
         let f = it.next().unwrap().to_string();
         let copy = it.next().unwrap().to_string();
         let args: Vec<Arg> = it.map(parse_arg).collect();
+        // "<fn>~d": the same operation with its OUTPUT objects pre-filled with old values (results must not depend on them)
+        let (f, dirty) = match f.strip_suffix("~d") { Some(b) => (b.to_string(), true), None => (f, false) };
+        dispatch::DIRTY.with(|d| d.set(dirty));
         let r = catch_unwind(AssertUnwindSafe(|| dispatch::dispatch(&f, &copy, &args)));
+        dispatch::DIRTY.with(|d| d.set(false));
         let mut s = String::new();
         s.push_str(&id);
         match r {
